@@ -91,6 +91,7 @@ func NewClientWithLogger(
 		cancel,
 		sync.WaitGroup{},
 		sync.Mutex{},
+		nil,
 	}
 }
 
@@ -124,6 +125,7 @@ type client struct {
 	cancelFunc                       context.CancelFunc
 	wg                               sync.WaitGroup // For the read loop.
 	encoderMutex                     sync.Mutex     // Serialises writers only; never held together with mutex.
+	handshakeError                   error          // Why ReadSchema failed; nil if it succeeded or was not called.
 }
 
 func (c *client) sendCBOR(message any) error {
@@ -136,6 +138,17 @@ func (c *client) sendCBOR(message any) error {
 }
 
 func (c *client) ReadSchema() (*schema.SchemaSchema, error) {
+	unserializedSchema, err := c.readSchema()
+	// A plugin whose hello message could not be used cannot be talked to: Execute reports that instead of
+	// guessing a protocol version (the guess was the legacy version, whose calls read the connection
+	// directly - several of them at once after a refused hello crashed inside the decoder).
+	c.mutex.Lock()
+	c.handshakeError = err
+	c.mutex.Unlock()
+	return unserializedSchema, err
+}
+
+func (c *client) readSchema() (*schema.SchemaSchema, error) {
 	c.logger.Debugf("Reading plugin schema...")
 
 	if err := c.sendCBOR(nil); err != nil {
@@ -186,6 +199,13 @@ func (c *client) Execute(
 	c.logger.Debugf("Executing plugin step %s/%s...", stepData.RunID, stepData.ID)
 	if len(stepData.RunID) == 0 {
 		return NewErrorExecutionResult(fmt.Errorf("run ID is blank for step %s", stepData.ID))
+	}
+	c.mutex.Lock()
+	handshakeError := c.handshakeError
+	c.mutex.Unlock()
+	if handshakeError != nil {
+		return NewErrorExecutionResult(fmt.Errorf(
+			"cannot execute step %s: reading the plugin's schema failed (%w)", stepData.ID, handshakeError))
 	}
 	var workStartMsg any
 	workStartMsg = WorkStartMessage{
